@@ -144,6 +144,52 @@ theorem C19_lineprefix_partial (p s : Str) (h : plainLines s = true) :
       · exact h') h.2
   rw [hn]; rfl
 
+/-- T5a (`Lexer.tokeniter`, shared upstream code): without `keep_trailing_newline` the normalisation removes
+exactly ONE final newline — `t` may itself end in newlines, they stay. -/
+theorem C19_normalize_drops_exactly_one_newline (t : Str) (hb : ∀ c ∈ t, isBreak c = true → c = '\n') :
+    normalizeSource false (t ++ ['\n']) = t := by
+  unfold normalizeSource
+  simp only [Bool.false_and, Bool.false_eq_true, if_false, List.append_nil]
+  exact joinNl_splitlines_snoc_nl t hb
+
+/-- T5b: with `keep_trailing_newline` (Nunavut's setting) the final newline stays. -/
+theorem C19_normalize_keeps_trailing_newline (t : Str) (hb : ∀ c ∈ t, isBreak c = true → c = '\n') :
+    normalizeSource true (t ++ ['\n']) = t ++ ['\n'] := by
+  unfold normalizeSource
+  have he : endsNl (t ++ ['\n']) = true := by simp [endsNl]
+  simp only [he, Bool.and_self, if_true]
+  have hne : splitlines (t ++ ['\n']) ≠ [] := by
+    unfold splitlines
+    simpa using linesT_ne_nil (s := t ++ ['\n']) (by simp)
+  rw [joinNl_snoc_nil _ hne, joinNl_splitlines_snoc_nl t hb]
+
+/-- T5c: a source with only `\n` line breaks and no final newline is lexed as written, under both settings. -/
+theorem C19_normalize_identity (keep : Bool) (s : Str) (h : plainLines s = true) :
+    normalizeSource keep s = s := by
+  simp only [plainLines, Bool.and_eq_true, List.all_eq_true, Bool.or_eq_true, Bool.not_eq_true',
+    decide_eq_true_eq, bne_iff_ne, ne_eq] at h
+  have hb : ∀ c ∈ s, isBreak c = true → c = '\n' := fun c hc hbr => by
+    rcases h.1 c hc with h' | h'
+    · rw [hbr] at h'; exact absurd h' (by simp)
+    · exact h'
+  have he : endsNl s = false := by
+    unfold endsNl
+    cases hl : s.getLast? with
+    | none => rfl
+    | some x =>
+      have hx : x ∈ s := List.mem_of_getLast? hl
+      have h1 : x ≠ '\n' := by intro hx'; subst hx'; exact h.2 hl
+      have h2 : x ≠ '\r' := by
+        intro hx'; subst hx'
+        exact absurd (hb '\r' hx (by decide)) (by decide)
+      simp [h1, h2]
+  unfold normalizeSource
+  simp only [he, Bool.and_false, Bool.false_eq_true, if_false, List.append_nil]
+  have := joinNl_eq_normTerms (fun l => l) (linesT s)
+  unfold splitlines
+  rw [this, normTerms_linesT_plain s hb h.2]
+  exact linesT_flatten s
+
 /-- T4a: `{% assert e %}` renders the empty string iff `e` is truthy … -/
 theorem C19_assert_renders_nothing_iff_truthy (truthy : Bool) (msg : Str) :
     doAssert truthy msg = .ok [] ↔ truthy = true := by
@@ -200,6 +246,9 @@ example : lineprefix [] "a\n".toList ≠ specPrefix [] "a\n".toList := by decide
 example : lineprefix " ".toList "a\r\nb".toList ≠ specPrefix " ".toList "a\r\nb".toList := by decide
 example : lineprefix " ".toList "a\x0cb".toList = " a\n b".toList := by decide
 example : lineprefix "  ".toList "a\n\nb".toList = "  a\n\n  b".toList ∧ plainLines "a\n\nb".toList = true := by decide
+-- T5: two final newlines, one is removed (not both); exotic boundaries become `\n` (upstream 2.x behaviour)
+example : normalizeSource false "a\n\n".toList = "a\n".toList ∧ normalizeSource true "a\r\n\r".toList = "a\n\n".toList ∧
+    normalizeSource false "a\x0cb".toList = "a\nb".toList := by decide
 -- T4
 example : doAssert false "m".toList = .error (.assertion "m".toList) := by rfl
 example : parseUses true "a".toList "A".toList [⟨.elifuses, "b".toList, "B".toList⟩, ⟨.else_, [], "C".toList⟩, ⟨.end_, [], []⟩]
